@@ -789,16 +789,15 @@ pub fn bias_feasible(mut case: ModelCase) -> ModelCase {
             (e, SExp::Num(_)) if !matches!(e, SExp::Num(_)) => {
                 let Some(v) = e.eval(&env) else { continue };
                 let target = match c.rel {
-                    Cmp::Le => v + slack,
-                    Cmp::Ge => v - slack,
+                    Cmp::Le | Cmp::Lt => v + slack,
+                    Cmp::Ge | Cmp::Gt => v - slack,
                     Cmp::Eq => v,
                 };
                 // rounding must not break the direction
                 if let Some(q) = quantise(target.clone()) {
                     let ok = match c.rel {
-                        Cmp::Le => big(q) >= target - big_frac(0, 1) && c.rel.holds(&e.eval(&env).unwrap(), &big(q)),
-                        Cmp::Ge => c.rel.holds(&e.eval(&env).unwrap(), &big(q)),
-                        Cmp::Eq => c.rel.holds(&e.eval(&env).unwrap(), &big(q)),
+                        Cmp::Le | Cmp::Lt => big(q) >= target - big_frac(0, 1) && c.rel.holds(&e.eval(&env).unwrap(), &big(q)),
+                        Cmp::Ge | Cmp::Gt | Cmp::Eq => c.rel.holds(&e.eval(&env).unwrap(), &big(q)),
                     };
                     if ok {
                         c.rhs = SExp::Num(q);
@@ -808,8 +807,8 @@ pub fn bias_feasible(mut case: ModelCase) -> ModelCase {
             (SExp::Num(_), e) if !matches!(e, SExp::Num(_)) => {
                 let Some(v) = e.eval(&env) else { continue };
                 let target = match c.rel {
-                    Cmp::Le => v - slack, // constant <= e
-                    Cmp::Ge => v + slack,
+                    Cmp::Le | Cmp::Lt => v - slack, // constant <= e
+                    Cmp::Ge | Cmp::Gt => v + slack,
                     Cmp::Eq => v,
                 };
                 if let Some(q) = quantise(target) {
